@@ -63,12 +63,14 @@ class Infra(Exception):
     """infrastructure failure: exit 2, never a verdict"""
 
 
-def pure(disp):
+def pure(disp, always=False):
     """The Python-level body of a numba kernel, callable on index-recording arrays even when the kernel has been split
     into jitted helper functions: while it runs, every numba dispatcher among the globals of the kernel's module is
     replaced by its own `py_func` (nested helpers included), and put back afterwards — but only when an argument is a
     recorder (something numba cannot type); with plain arguments the helpers stay compiled.  Objects that are not
-    dispatchers (e.g. a recorder the harness has put in place of a helper) are left alone."""
+    dispatchers (e.g. a recorder the harness has put in place of a helper) are left alone.  `always=True` pythonizes the
+    helpers even for plain arguments: needed where the Python-level run is relied on to turn an out-of-range subscript
+    into an IndexError (a compiled helper would write out of bounds instead)."""
     f = getattr(disp, 'py_func', disp)
     g = getattr(f, '__globals__', None)
     if g is None:
@@ -84,7 +86,7 @@ def pure(disp):
 
     def call(*a, **k):
         from numba.core.registry import CPUDispatcher
-        if all(plain(x) for x in a) and all(plain(x) for x in k.values()):
+        if not always and all(plain(x) for x in a) and all(plain(x) for x in k.values()):
             # ordinary arguments: nested helpers stay compiled (numba's integer promotion differs from numpy scalar
             # arithmetic, e.g. uint8 << 4), exactly as when the kernel's py_func is called directly
             return f(*a, **k)
